@@ -92,6 +92,12 @@ func (t *Input) Extend(x Type) error {
 // CoerceIn coerces an input value into the expected input type if possible
 // otherwise an error is returned.
 func (t *Input) CoerceIn(v interface{}) (interface{}, error) {
+	return t.coerceIn(v, nil)
+}
+
+// coerceIn is CoerceIn, filling lists the input types whose defaults are
+// being filled in on the way to this call.
+func (t *Input) coerceIn(v interface{}, filling []*Input) (interface{}, error) {
 	switch tv := v.(type) {
 	case nil:
 		// nil is okay at this point
@@ -128,14 +134,7 @@ func (t *Input) CoerceIn(v interface{}) (interface{}, error) {
 					// An object default (also in a list) is a value of the
 					// field's type like one that was given: the defaults of
 					// its own fields are filled in.
-					switch dv.(type) {
-					case map[string]interface{}, []interface{}:
-						if co, _ := f.Type.(InCoercer); co != nil {
-							if cv, err := co.CoerceIn(dv); err == nil {
-								dv = cv
-							}
-						}
-					}
+					dv = fillDefault(f.Type, dv, append(filling, t))
 					if rt != nil {
 						if err := t.reflectSetKey(rv, k, dv); err != nil {
 							return nil, inErr(err, k)
@@ -171,6 +170,35 @@ func (t *Input) CoerceIn(v interface{}) (interface{}, error) {
 		}
 	}
 	return v, nil
+}
+
+// fillDefault fills in the defaults of the fields of the object defaults in
+// dv, a default of type ft. An input type that refers to itself through a
+// default (sub: Filter = {}) would never end, its default is left as it is
+// written the second time around.
+func fillDefault(ft Type, dv interface{}, filling []*Input) interface{} {
+	switch tt := ft.(type) {
+	case *NonNull:
+		return fillDefault(tt.Base, dv, filling)
+	case *List:
+		if list, ok := dv.([]interface{}); ok {
+			for i, m := range list {
+				list[i] = fillDefault(tt.Base, m, filling)
+			}
+		}
+	case *Input:
+		if m, ok := dv.(map[string]interface{}); ok {
+			for _, it := range filling {
+				if it == tt {
+					return dv
+				}
+			}
+			if cv, err := tt.coerceIn(m, filling); err == nil {
+				dv = cv
+			}
+		}
+	}
+	return dv
 }
 
 func inErr(err error, k string) error {
